@@ -331,6 +331,7 @@ pub fn generate(profile: &str, seed: u64) -> Scenario {
         "C17" => gen_quiescent(seed, true),
         "C10" => gen_panics(profile, seed, true),
         "C11" => gen_panics(profile, seed, false),
+        "C12" => gen_c12(seed),
         _ => gen_general(profile, seed, &Params::base()),
     }
 }
@@ -693,4 +694,134 @@ pub fn gen_quiescent(seed: u64, nonacq: bool) -> Scenario {
     let mut cfg = g.cfg(60);
     cfg.faults.try_refuse_pct = 0;
     Scenario { world: w, program: Program { threads }, cfg, profile: if nonacq { "C17".into() } else { "C13".into() } }
+}
+
+/// C12 base scenario: one thread whose API calls will have raw-lock faults injected, plus
+/// holder threads that keep some of the same locks busy for a while (pre-held patterns:
+/// they make tries fail and drive rollback and retry paths). Faults are added by
+/// `c12_variants` after a fault-free pilot run has counted the raw operations.
+pub fn gen_c12(seed: u64) -> Scenario {
+    let mut p = Params::base();
+    p.leaves = (1, 4);
+    p.unit_pct = 25;
+    p.max_units = 1;
+    p.nest_pct = 20;
+    p.single_pct = 25;
+    p.poison_coll_pct = 10;
+    p.nonacq_pct = 0;
+    p.keyprobe_pct = 0;
+    p.yield_pct = 10;
+    p.body_ops = (0, 2);
+    p.shared_ref_pct = 0;
+    let mut g = Gen::new(seed, &p);
+    let mut w = g.world_base();
+    let all = Gen::elems_of(&w);
+    let nt = g.rng.range(1, 2);
+    for _ in 0..nt {
+        let es = g.random_subset(&all, (1, 4));
+        let t = g.target_over(&w, &es, 1, true);
+        w.targets.push(t);
+    }
+    let mut main_steps = Vec::new();
+    for _ in 0..g.rng.range(1, 2) {
+        let t = g.rng.below(nt);
+        let mut a = g.acq(&w, t);
+        a.rebuild = false;
+        main_steps.push(Step::Acquire(a));
+    }
+    let mut threads = vec![main_steps];
+    let nh = g.rng.range(0, 2);
+    for _ in 0..nh {
+        if all.is_empty() {
+            break;
+        }
+        let e = g.rng.pick(&all).clone();
+        let spec = match &e { Elem::Leaf(l) => TSpec::Leaf(*l), Elem::Unit(u) => TSpec::Unit(*u) };
+        let rw = w.all_rw(&spec);
+        w.targets.push(spec);
+        let ti = w.targets.len() - 1;
+        let api = if rw && g.rng.chance(1, 2) { Api::Read } else { Api::Lock };
+        let body: Vec<BodyOp> = (0..g.rng.range(1, 3)).map(|_| BodyOp::Yield).collect();
+        threads.push(vec![Step::Acquire(Acq { target: ti, rebuild: false, api, lent_key: false, body, release: Release::Drop })]);
+    }
+    let mut cfg = g.cfg(60);
+    cfg.faults.try_refuse_pct = 0;
+    Scenario { world: w, program: Program { threads }, cfg, profile: "C12".into() }
+}
+
+/// all one-shot fault positions of thread 0's API calls (as counted by the pilot run), both
+/// before and after the operation's effect, plus a few persistent ("evil lock") variants
+pub fn c12_variants(base: &Scenario, api_log: &[(usize, u32, crate::sched::ApiKind, u32)], seed: u64) -> Vec<Scenario> {
+    use crate::sched::{OneShot, When};
+    let mut rng = Rng::new(seed ^ 0xC12C12);
+    let mut out = Vec::new();
+    let mut shots: Vec<OneShot> = Vec::new();
+    for (tid, idx, _kind, ops) in api_log {
+        if *tid != 0 {
+            continue;
+        }
+        for k in 0..*ops {
+            shots.push(OneShot { tid: 0, api_idx: *idx, op_idx: k, when: When::Before });
+            shots.push(OneShot { tid: 0, api_idx: *idx, op_idx: k, when: When::After });
+        }
+    }
+    rng.shuffle(&mut shots);
+    shots.truncate(32);
+    for sh in shots {
+        let mut s = base.clone();
+        s.cfg.faults.oneshots = vec![sh];
+        out.push(s);
+    }
+    // persistent faults as in tests/evil_*.rs (at most one lock whose unlock panics: two
+    // panicking unlocks inside one guard abort the process by Rust's own rules)
+    let nl = base.world.leaves.len();
+    if nl > 0 {
+        let masks: [[bool; 3]; 6] = [[true, false, true], [false, true, false], [false, false, true], [true, true, true], [true, false, false], [true, true, false]];
+        for _ in 0..4 {
+            let lid = rng.below(nl);
+            let mask = *rng.pick(&masks);
+            let mut s = base.clone();
+            s.cfg.faults.evil = vec![(lid, mask)];
+            if nl > 1 && rng.chance(1, 3) {
+                // a second faulty lock that never panics in unlock
+                let l2 = (lid + 1 + rng.below(nl - 1)) % nl;
+                let m2 = *rng.pick(&[[true, false, false], [false, true, false], [true, true, false]]);
+                s.cfg.faults.evil.push((l2, m2));
+            }
+            // holders stay away from faulty locks
+            let evil_lids: Vec<usize> = s.cfg.faults.evil.iter().map(|e| e.0).collect();
+            let w = s.world.clone();
+            let keep: Vec<bool> = s.program.threads.iter().enumerate().map(|(i, th)| {
+                i == 0 || !th.iter().any(|st| matches!(st, Step::Acquire(a) if w.flatten(&w.targets[a.target], None).iter().any(|f| evil_lids.contains(&f.lid))))
+            }).collect();
+            let mut i = 0;
+            s.program.threads.retain(|_| { let k = keep[i]; i += 1; k });
+            out.push(s);
+        }
+    }
+    out
+}
+
+/// C11: the panic injected at each critical section of each thread in turn
+pub fn c11_variants(base: &Scenario, seed: u64) -> Vec<Scenario> {
+    let mut rng = Rng::new(seed ^ 0xC11C11);
+    let mut out = Vec::new();
+    for (ti, th) in base.program.threads.iter().enumerate() {
+        for (si, st) in th.iter().enumerate() {
+            if let Step::Acquire(a) = st {
+                if a.release == Release::Forget {
+                    continue;
+                }
+                let mut s = base.clone();
+                if let Step::Acquire(a2) = &mut s.program.threads[ti][si] {
+                    a2.body.retain(|b| !matches!(b, BodyOp::Panic));
+                    let pos = rng.range(0, a2.body.len());
+                    a2.body.insert(pos, BodyOp::Panic);
+                }
+                let _ = a;
+                out.push(s);
+            }
+        }
+    }
+    out
 }
